@@ -231,6 +231,8 @@ func runC06(c *Ctx) {
 	}
 	runC06SNI(c)
 	runC06Deadlines(c, pki)
+	runC06RefPeer(c, pki)
+	runC06Defaults(c, pki)
 	defer rep.Require("sessions_with_a_negotiated_application_protocol", 10)
 	rep.Count("cases", int64(len(cases)))
 	var smu sync.Mutex
